@@ -191,7 +191,7 @@ def numbering(F, rep, rid, g, T):
     rep.floor(rid, "tokens", n, 58)
 
 
-def pop_provenance(fn_hir):
+def pop_provenance(fn_hir, F=None):
     """returns (pushed constructor path, [pop index per constructor argument]) for every yy_node_stack.push(AstNode::V(..))"""
     env = {}
     counter = [0]
@@ -234,8 +234,35 @@ def pop_provenance(fn_hir):
         for nm in names:
             env[nm] = val
 
+    ctor_env = {}      # function-pointer parameters of an expanded helper bound to the constructor passed by the action
+
+    def expand_helper(n):
+        """`self.reduce_binary_operator(AstNode::Add)`: a private Parser method shared by several actions is analysed in place, its constructor
+        parameter bound to the constructor the action passes"""
+        cal = n.get("callee") or ""
+        if F is None or not re.match(r"^dmntk_feel_parser::parser::Parser::(<[^>]*>::)?\w+$", cal) or cal.split("::")[-1].startswith("action_"):
+            return False
+        hh = F.hir.get(cal)
+        if hh is None or hh is fn_hir or len(expanding) > 2 or cal in expanding:
+            return False
+        actual = ([n["recv"]] if n.get("k") == "MethodCall" else []) + list(n.get("args", []))
+        saved = dict(ctor_env)
+        for p2, a in zip(hh.get("params", []), actual):
+            a = strip(a)
+            if p2.get("k") == "Bind" and a.get("k") == "Path" and a.get("res") == "def" and ("Ctor" in (a.get("dk") or "") or a.get("dk") in ("Fn", "AssocFn")):
+                ctor_env[p2["name"]] = a["path"]
+        expanding.append(cal)
+        walk_hir(hh["body"], visit)
+        expanding.pop()
+        ctor_env.clear()
+        ctor_env.update(saved)
+        return True
+    expanding = []
+
     def visit(n, parents):
         k = n.get("k")
+        if k in ("MethodCall", "Call") and n.get("callee") and expand_helper(n):
+            return False
         if k == "LetStmt" and "e" in n:
             bind(n["p"], prov(n["e"]))
             return False
@@ -246,8 +273,11 @@ def pop_provenance(fn_hir):
             recv = strip(n["recv"])
             if recv.get("k") == "Field" and recv.get("name") == "yy_node_stack" and n["args"]:
                 arg = strip(n["args"][0])
+                fpath = strip(arg["f"]) if arg.get("k") == "Call" and isinstance(arg.get("f"), dict) else {}
                 if arg.get("k") == "Call" and "Ctor" in (arg.get("dk") or ""):
                     pushes.append((arg["callee"], [sorted(prov(x)) for x in arg["args"]], n.get("l")))
+                elif arg.get("k") == "Call" and not arg.get("callee") and fpath.get("k") == "Path" and fpath.get("res") == "local" and fpath.get("name") in ctor_env:
+                    pushes.append((ctor_env[fpath["name"]], [sorted(prov(x)) for x in arg["args"]], n.get("l")))
                 elif arg.get("k") == "Path" and arg.get("res") == "def" and "Ctor" in (arg.get("dk") or ""):
                     pushes.append((arg["path"], [], n.get("l")))
                 else:
@@ -314,7 +344,7 @@ def actions_rule(F, rep, rid, g):
         if h is None:
             rep.violation(rid, "action:%s" % a, "grammar action %s has no implementation in Parser" % a, "feel-parser/src/parser.rs")
             continue
-        pushes = pop_provenance(h)
+        pushes = pop_provenance(h, F)
         for ctor, provs, line in pushes:
             flat = [p for p in provs if p]
             if len(flat) >= 2:
